@@ -248,6 +248,34 @@ def policy_preemptions(start, preempts):
     return pol
 
 
+def policy_park(start, k, other, nbodies):
+    """Two preemptions chosen by what happens, not by position: run `start`; at global decision number k park it and run
+    `other` until `other` has entered a function body (nbodies() grows) - or cannot go on -; then switch back to `start` and
+    let it run on while `other` sits in its body; non-preemptive afterwards.  The schedule that attacks single flight:
+    every guard `start` still has to pass is passed while the other caller of the same call is computing."""
+    st = {"phase": 0, "n0": 0}
+
+    def pol(ctrl, enabled):
+        idxs = [t.idx for t in enabled]
+        if ctrl.step == 0 and start in idxs:
+            return ctrl.threads[start]
+        if st["phase"] == 0 and ctrl.step + 1 >= k and other in idxs:
+            st["phase"], st["n0"] = 1, nbodies()
+            return ctrl.threads[other]
+        if st["phase"] == 1:
+            if nbodies() > st["n0"] and start in idxs:
+                st["phase"] = 2
+                return ctrl.threads[start]
+            if other in idxs:
+                return ctrl.threads[other]
+            st["phase"] = 2
+        if ctrl.current is not None and ctrl.current.idx in idxs:
+            return ctrl.current
+        return enabled[0]
+
+    return pol
+
+
 def policy_random(rnd, p_switch=0.15):
     def pol(ctrl, enabled):
         if ctrl.current is not None and ctrl.current in enabled and rnd.random() > p_switch:
